@@ -221,13 +221,45 @@ func ruleUnusedParam(c *Ctx) []Obligation {
 					obs = append(obs, Obligation{Key: key, Pos: c.Pos(id.Pos()), Status: Info, Detail: "never read; exempt: " + exempt})
 				case gdPositionOnly(obj.Type()):
 					obs = append(obs, Obligation{Key: key, Pos: c.Pos(id.Pos()), Status: Info, Detail: "never read; exempt: its type carries nothing but a source position (no payload a caller could vary)"})
+				case !gdConstStoredForParam(p.TypesInfo, fd, id.Name):
+					// a dead parameter alone changes no behaviour: reported, not armed. It is armed
+					// (below) when the body stores a *constant* into a struct field of the parameter's
+					// own name — the value the callers pass is replaced by a hard-wired one.
+					obs = append(obs, Obligation{Key: key, Pos: c.Pos(id.Pos()), Status: Info,
+						Detail: fmt.Sprintf("parameter %s of %s is never read (dead parameter; no field of that name is filled with a constant instead)", id.Name, FuncName(fd))})
 				default:
 					obs = append(obs, Obligation{Key: key, Pos: c.Pos(id.Pos()), Status: Violated, Nontrivial: true,
-						Detail: fmt.Sprintf("parameter %s (%s) of %s is never read: whatever the callers pass is ignored", id.Name, types.TypeString(obj.Type(), func(q *types.Package) string { return q.Name() }), FuncName(fd))})
+						Detail: fmt.Sprintf("parameter %s (%s) of %s is never read although the body fills the field of the same name with a constant: whatever the callers pass is replaced by that constant", id.Name, types.TypeString(obj.Type(), func(q *types.Package) string { return q.Name() }), FuncName(fd))})
 				}
 			}
 		}
 	}
 	sort.SliceStable(obs, func(i, j int) bool { return obs[i].Key < obs[j].Key })
 	return obs
+}
+
+// gdConstStoredForParam: the body contains a composite-literal field or an
+// assignment `x.<name> = <constant>` for the field called like the parameter.
+func gdConstStoredForParam(info *types.Info, fd *ast.FuncDecl, name string) bool {
+	found := false
+	isConst := func(e ast.Expr) bool {
+		tv, ok := info.Types[e]
+		return ok && tv.Value != nil
+	}
+	ast.Inspect(fd.Body, func(n ast.Node) bool {
+		switch x := n.(type) {
+		case *ast.KeyValueExpr:
+			if k, ok := x.Key.(*ast.Ident); ok && k.Name == name && isConst(x.Value) {
+				found = true
+			}
+		case *ast.AssignStmt:
+			for i, l := range x.Lhs {
+				if sel, ok := l.(*ast.SelectorExpr); ok && sel.Sel.Name == name && i < len(x.Rhs) && isConst(x.Rhs[i]) {
+					found = true
+				}
+			}
+		}
+		return true
+	})
+	return found
 }
